@@ -4,6 +4,7 @@ import (
 	"fmt"
 	"go/ast"
 	"go/token"
+	"go/types"
 	"regexp"
 	"strings"
 )
@@ -14,7 +15,13 @@ import (
 //   - the ordered list of replacement passes of replaceSequencesInternal: keyword of the regular expression
 //     (which must have the shape \$\(KW ([^\)]+)\)), the slice offset in[N:len(in)-1] and the five literal flags
 //     (runnable, multiple, dir, outPrefix, hash) handed to replaceSequence,
-//   - the final strings.ReplaceAll(cmd, from, to).
+//   - the final strings.ReplaceAll(cmd, from, to),
+//   - the dependency lookups of replaceSequenceLabel, in order (dep_lookup): the exact label handed to
+//     target.DependenciesFor, then any retry block `if len(deps) == 0 && label.Subrepo != "" { label.Subrepo = "";
+//     deps = target.DependenciesFor(label) }` (none in the code as it stands; the model follows whatever is listed and
+//     the theorem "only the exact label, subrepo included, expands" needs the list to be [LookupExact]),
+//   - the writes of the output loop of checkAndReplaceSequence (out_loop_writes): every path goes through quote()
+//     on its own, followed by the separator; the result is TrimRight(builder, separator).
 // Anything that does not have exactly the recognised shape fails closed.
 func init() {
 	targets["CmdReplTables"] = func() string {
@@ -273,6 +280,9 @@ func init() {
 			failShape("splitEntryPoint: expected Contains and Split on one single-character separator, found %q", seps)
 		}
 
+		lookups := c37LabelLookups(f)
+		writes, outSep := c37OutputLoop(f)
+
 		var b strings.Builder
 		b.WriteString(genHeader)
 		b.WriteString("(* property C37: tables of src/core/command_replacements.go; see harness/cmd/gotrans/c37cmdrepl.go *)\n")
@@ -290,6 +300,12 @@ func init() {
 			fmt.Fprintf(&b, "  (%s, %d%%nat, (%v, %v, %v, %v, %v))%s\n", coqString(p.kw), p.off, p.flags[0], p.flags[1], p.flags[2], p.flags[3], p.flags[4], sep)
 		}
 		b.WriteString("].\n")
+		b.WriteString("(* replaceSequenceLabel: the keys handed to target.DependenciesFor, in order, before `doesn't depend on target` *)\n")
+		b.WriteString("Inductive lookup_step := LookupExact | LookupStripSubrepo.\n")
+		b.WriteString("Definition dep_lookup : list lookup_step := [" + strings.Join(lookups, "; ") + "].\n")
+		b.WriteString("(* checkAndReplaceSequence, the loop over dep.Outputs(): what is written to the builder per selected output *)\n")
+		b.WriteString("Definition out_loop_writes : list string := " + coqStringList(writes) + ".\n")
+		b.WriteString("Definition out_loop_sep : string := " + coqString(outSep) + ".\n")
 		return b.String()
 	}
 }
@@ -312,4 +328,131 @@ func replaceAllLits(e ast.Expr, ident, where string) (string, string) {
 		failShape("%s: ReplaceAll arguments are not literals", where)
 	}
 	return unquote(a), unquote(b)
+}
+
+// c37LabelLookups recognises replaceSequenceLabel:
+//
+//	if label == target.Label { return checkAndReplaceSequence(state, target, target, ..., false) }
+//	deps := target.DependenciesFor(label)
+//	[ if len(deps) == 0 && label.Subrepo != "" { label.Subrepo = ""; deps = target.DependenciesFor(label) } ]*
+//	if len(deps) == 0 { panic(...) }
+//	return checkAndReplaceSequence(state, target, deps[0], ..., target.IsTool(label))
+func c37LabelLookups(f *ast.File) []string {
+	fd := findFunc(f, "", "replaceSequenceLabel")
+	st := fd.Body.List
+	if len(st) < 4 {
+		failShape("replaceSequenceLabel: too few statements")
+	}
+	self, ok := st[0].(*ast.IfStmt)
+	if !ok || self.Init != nil || self.Else != nil || types.ExprString(self.Cond) != "label == target.Label" || len(self.Body.List) != 1 {
+		failShape("replaceSequenceLabel: first statement is not `if label == target.Label { return ... }`")
+	}
+	if r, ok := self.Body.List[0].(*ast.ReturnStmt); !ok || len(r.Results) != 1 ||
+		!strings.HasPrefix(types.ExprString(r.Results[0]), "checkAndReplaceSequence(state, target, target, ") ||
+		!strings.HasSuffix(types.ExprString(r.Results[0]), ", allOutputs, false)") {
+		failShape("replaceSequenceLabel: the self case does not return checkAndReplaceSequence(state, target, target, ..., false)")
+	}
+	as, ok := st[1].(*ast.AssignStmt)
+	if !ok || as.Tok != token.DEFINE || len(as.Lhs) != 1 || len(as.Rhs) != 1 || types.ExprString(as.Lhs[0]) != "deps" ||
+		types.ExprString(as.Rhs[0]) != "target.DependenciesFor(label)" {
+		failShape("replaceSequenceLabel: second statement is not `deps := target.DependenciesFor(label)`")
+	}
+	lookups := []string{"LookupExact"}
+	i := 2
+	for ; i < len(st)-2; i++ {
+		retry, ok := st[i].(*ast.IfStmt)
+		if !ok || retry.Init != nil || retry.Else != nil || len(retry.Body.List) != 2 {
+			failShape("replaceSequenceLabel: statement %d is not a recognised retry block", i)
+		}
+		if c := types.ExprString(retry.Cond); c != `len(deps) == 0 && label.Subrepo != ""` {
+			failShape("replaceSequenceLabel: retry condition %q is not `len(deps) == 0 && label.Subrepo != \"\"`", c)
+		}
+		a1, ok1 := retry.Body.List[0].(*ast.AssignStmt)
+		a2, ok2 := retry.Body.List[1].(*ast.AssignStmt)
+		if !ok1 || !ok2 || a1.Tok != token.ASSIGN || a2.Tok != token.ASSIGN || len(a1.Lhs) != 1 || len(a2.Lhs) != 1 ||
+			types.ExprString(a1.Lhs[0]) != "label.Subrepo" || types.ExprString(a1.Rhs[0]) != `""` ||
+			types.ExprString(a2.Lhs[0]) != "deps" || types.ExprString(a2.Rhs[0]) != "target.DependenciesFor(label)" {
+			failShape("replaceSequenceLabel: retry block %d is not `label.Subrepo = \"\"; deps = target.DependenciesFor(label)`", i)
+		}
+		lookups = append(lookups, "LookupStripSubrepo")
+	}
+	miss, ok := st[i].(*ast.IfStmt)
+	if !ok || miss.Init != nil || miss.Else != nil || types.ExprString(miss.Cond) != "len(deps) == 0" || len(miss.Body.List) != 1 {
+		failShape("replaceSequenceLabel: no `if len(deps) == 0 { panic(...) }` before the final return")
+	}
+	if es, ok := miss.Body.List[0].(*ast.ExprStmt); !ok || !strings.HasPrefix(types.ExprString(es.X), "panic(") {
+		failShape("replaceSequenceLabel: a label that is not a dependency does not panic")
+	}
+	ret, ok := st[i+1].(*ast.ReturnStmt)
+	if !ok || len(ret.Results) != 1 ||
+		!strings.HasPrefix(types.ExprString(ret.Results[0]), "checkAndReplaceSequence(state, target, deps[0], ") ||
+		!strings.HasSuffix(types.ExprString(ret.Results[0]), ", allOutputs, target.IsTool(label))") {
+		failShape("replaceSequenceLabel: last statement is not `return checkAndReplaceSequence(state, target, deps[0], ..., target.IsTool(label))`")
+	}
+	return lookups
+}
+
+// c37OutputLoop recognises, in checkAndReplaceSequence, that the only things written to outputBuilder are quote(<one
+// path>) and one literal separator, that strings.Join is not used, and that the loop's result is
+// strings.TrimRight(outputBuilder.String(), <the separator>). Returns the writes in source order and the separator.
+func c37OutputLoop(f *ast.File) ([]string, string) {
+	fd := findFunc(f, "", "checkAndReplaceSequence")
+	writes, seps, trims := []string{}, []string{}, []string{}
+	ast.Inspect(fd.Body, func(n ast.Node) bool {
+		c, ok := n.(*ast.CallExpr)
+		if !ok {
+			return true
+		}
+		switch fn := types.ExprString(c.Fun); {
+		case fn == "strings.Join":
+			failShape("checkAndReplaceSequence: strings.Join is used (paths must be quoted one by one)")
+		case fn == "outputBuilder.WriteString":
+			if len(c.Args) != 1 {
+				failShape("checkAndReplaceSequence: WriteString with %d arguments", len(c.Args))
+			}
+			switch a := c.Args[0].(type) {
+			case *ast.BasicLit:
+				writes = append(writes, "sep")
+				seps = append(seps, unquote(a))
+			case *ast.CallExpr:
+				if types.ExprString(a.Fun) != "quote" || len(a.Args) != 1 {
+					failShape("checkAndReplaceSequence: the builder is given %s, not quote(path)", types.ExprString(a))
+				}
+				arg := types.ExprString(a.Args[0])
+				if arg != "abs" && !strings.HasPrefix(arg, "fileDestination(") {
+					failShape("checkAndReplaceSequence: quote is applied to %s, not to one path", arg)
+				}
+				writes = append(writes, "quote")
+			default:
+				failShape("checkAndReplaceSequence: the builder is given %s", types.ExprString(c.Args[0]))
+			}
+		case fn == "strings.TrimRight":
+			if len(c.Args) != 2 || types.ExprString(c.Args[0]) != "outputBuilder.String()" {
+				failShape("checkAndReplaceSequence: TrimRight is not applied to outputBuilder.String()")
+			}
+			bl, ok := c.Args[1].(*ast.BasicLit)
+			if !ok {
+				failShape("checkAndReplaceSequence: TrimRight cutset is not a literal")
+			}
+			trims = append(trims, unquote(bl))
+		case strings.HasPrefix(fn, "outputBuilder.") && fn != "outputBuilder.String":
+			failShape("checkAndReplaceSequence: unrecognised use of the builder: %s", fn)
+		}
+		return true
+	})
+	if strings.Join(writes, ",") != "quote,quote,sep" || len(seps) != 1 || len(trims) != 1 || seps[0] != trims[0] || len(seps[0]) != 1 {
+		failShape("checkAndReplaceSequence: output loop writes %q with separators %q trimmed by %q; expected quote(abs) | quote(fileDestination), then one separator, trimmed at the end", writes, seps, trims)
+	}
+	// the loop's value must be returned: some return statement is the TrimRight call
+	found := false
+	ast.Inspect(fd.Body, func(n ast.Node) bool {
+		if r, ok := n.(*ast.ReturnStmt); ok && len(r.Results) == 1 && strings.HasPrefix(types.ExprString(r.Results[0]), "strings.TrimRight(outputBuilder.String(), ") {
+			found = true
+		}
+		return true
+	})
+	if !found {
+		failShape("checkAndReplaceSequence: the builder is not what the output loop returns")
+	}
+	return writes, seps[0]
 }
